@@ -202,12 +202,13 @@ func (e *EncryptedISO) clearRegionsData(start sizeBytes, data []byte) {
 func (e *EncryptedISO) decryptData(start sizeBytes, data []byte, cloneCBC bool) {
 	end := start + sizeBytes(len(data))
 	for _, region := range e.encryptedRegions {
-		if region.end <= start.sectors() || region.start > end.sectors() { // not covered
+		if region.end <= start.sectors() || region.start >= end.floorSectors() { // not covered
 			continue
 		}
 
-		startSector := max(region.start, start.floorSectors())
-		endSector := min(region.end, end.sectors())
+		// only sectors that lie completely inside data can be decrypted
+		startSector := max(region.start, start.sectors())
+		endSector := min(region.end, end.floorSectors())
 		for i := startSector; i < endSector; i++ {
 			encryptedSpan := data[i.bytes()-start : i.next().bytes()-start]
 			e.setIVForSector(i, cloneCBC).CryptBlocks(encryptedSpan, encryptedSpan)
